@@ -56,6 +56,15 @@ claim("C08", "DESIGN.md §3 C08",
       "Static analysis decides the release discipline (every DB-bound handle released on all paths, owners' Close complete, node shutdown releases everything with the database last, no explicit abort on the shutdown path) and the rebuild-on-open obligations and cache/table wiring. It does not decide identity of later snapshots.",
       TRUST + "Declined: snapshot/proof identity after reopen at every prefix; RocksDB's own reference counting.")
 
+claim("C11", "DESIGN.md §3 C11",
+      "must-respond on all handler paths (with sanitizer summaries), guard-on-call-chain dominance, unlock-on-all-exits, who-may-call, list-discipline and LRU rules (static)",
+      "Static analysis decides that every registered handler answers on every path, that undecodable bodies are answered 4xx, that the degenerate inputs named by the property (wrong digest length, empty bulk, missing parameter, absent version, out-of-range versions) meet a guard on every call chain before code that aborts, that raft.Apply has one producer, that request-path locks are always released, and two structural conditions whose violation makes replicated commands un-applicable (de-duplicating list insertion, true-LRU write cache). It does not decide panic-freedom for arbitrary bodies.",
+      TRUST + "Declined: totality over all bodies, oversized bodies, liveness after errors.")
+claim("C12", "DESIGN.md §3 C12",
+      "recover-boundary check, guard dominance on parsed tokens and decoded pointers, error discipline, finite order-model of the verifier's base case + structural descent (static)",
+      "Static analysis decides that the three proof verifiers turn every panic below them into a rejection, that audit-path keys and decoded answers are guarded before use, that decode failures end the call, and that verifier traversals terminate (order-test base case exact on every ordering of node height vs. forged path height; structural descent). It does not bound memory.",
+      TRUST + "recover() semantics of Go. Declined: memory bounds; malformed gossip to the agents.")
+
 NOT_YET = "check not built yet (static rules for this property are planned in DESIGN.md §3)"
 ALL = ["C%02d" % i for i in range(1, 21)]
 NA = {}
